@@ -341,6 +341,9 @@ func interpCases(c *Ctx, n int, tweak func(cfg *GenCfg, i int), post func(s *Sce
 		case "mismatchSum":
 			prog = g.mismatchSumProgram()
 			c.count("directed:mismatchSum")
+		case "cappedWorldThen":
+			prog = g.cappedWorldThenProgram()
+			c.count("directed:cappedWorldThen")
 		case "capVarReuse":
 			prog = g.capVarReuseProgram(cfg.OneSend)
 			c.count("directed:capVarReuse")
@@ -558,6 +561,8 @@ func init() {
 				cfg.Directed = "saveAllDebt"
 			case 5:
 				cfg.Directed = "remainingFirst"
+			case 11, 19:
+				cfg.Directed = "cappedWorldThen"
 			}
 		}, nil)
 	}
